@@ -90,7 +90,18 @@ func (r *Runner) Build(order []int) *Obs {
 			o.Kind = "register"
 			return
 		}
-		p, err := r.Coll.Build()
+		var p godi.Provider
+		var err error
+		switch r.W.Cfg.BuildMode {
+		case 1:
+			ctx, cancel := context.WithCancel(context.WithValue(context.Background(), ctxKeyT{-1}, "build"))
+			p, err = r.Coll.BuildWithContext(ctx)
+			cancel() // the build is over: what the caller does with its context is no business of the provider's
+		case 2:
+			p, err = r.Coll.BuildWithOptions(&godi.ProviderOptions{BuildTimeout: 10 * time.Minute})
+		default:
+			p, err = r.Coll.Build()
+		}
 		o.Err = err
 		if err == nil {
 			r.P = p
